@@ -283,6 +283,11 @@ func C14XMLValue(r *rand.Rand, m ref.XMLMap, typed, trimmedLeaves bool) (*ref.V,
 		root.M = append(root.M, ref.KV{K: m.ProcInstPfx + "xml", V: ref.StrV(`version="1.0" encoding="UTF-8"`)})
 		tags["decl"] = true
 	}
+	if r.IntN(4) == 0 {
+		// a processing instruction of the document's own (targets that begin with a character of the prefix included)
+		root.M = append(root.M, ref.KV{K: m.ProcInstPfx + []string{"php", "pipeline", "_dbg", "plugin", "xml-stylesheet", "p", "target", "pp_x"}[r.IntN(8)], V: ref.StrV(`some="data"`)})
+		tags["procinst"] = true
+	}
 	if r.IntN(8) == 0 {
 		root.M = append(root.M, ref.KV{K: m.DirectiveName, V: ref.StrV(`DOCTYPE root SYSTEM "a.dtd"`)})
 		tags["directive"] = true
